@@ -39,6 +39,7 @@ type SV struct {
 	M     map[int64]SV  // concrete map content (immutable, copy on write)
 	Fn    *ssa.Function // closure target
 	Bind  []SV          // closure bindings
+	Dyn   string        // dynamic type of an interface value, when known
 }
 
 func symInt(n int64) SV     { return SV{K: "int", Known: true, N: n, Desc: fmt.Sprint(n)} }
@@ -913,6 +914,9 @@ func (ev *symEval) evalValue(fr *symFrame, st *symState, v ssa.Value) SV {
 	case *ssa.MakeInterface:
 		a := ev.val(fr, x.X)
 		if a.K == "ref" || a.K == "addr" {
+			if !(a.K == "ref" && a.Known && a.Nil) {
+				a.Dyn = typeStr(x.X.Type())
+			}
 			return a
 		}
 		// a non-pointer value in an interface is a non-nil interface
@@ -920,6 +924,7 @@ func (ev *symEval) evalValue(fr *symFrame, st *symState, v ssa.Value) SV {
 		r.K = "ref"
 		r.Known = true
 		r.Nil = false
+		r.Dyn = typeStr(x.X.Type())
 		return r
 	case *ssa.Slice:
 		base := ev.val(fr, x.X)
@@ -1029,6 +1034,18 @@ func (ev *symEval) evalValue(fr *symFrame, st *symState, v ssa.Value) SV {
 		if x.CommaOk {
 			r := defaultFor(x.AssertedType, d)
 			return SV{K: "tuple", Desc: d, Elems: []SV{r, {K: "bool", Desc: "ok(" + d + ")"}}}
+		}
+		if _, isIface := x.AssertedType.Underlying().(*types.Interface); !isIface {
+			switch {
+			case a.Dyn != "" && a.Dyn != typeStr(x.AssertedType):
+				// the real execution panics here: interface conversion
+				st.dead = true
+				st.trace = append(st.trace, Event{Kind: "panic", What: "type assertion", Args: []string{fmt.Sprintf("%s holds %s, asserted %s", a.Desc, a.Dyn, typeStr(x.AssertedType))}, In: fname(fr.fn)})
+			case a.Dyn == "":
+				st.trace = append(st.trace, Event{Kind: "assert-unknown", What: typeStr(x.AssertedType), Args: []string{a.Desc}, In: fname(fr.fn)})
+			default:
+				st.trace = append(st.trace, Event{Kind: "assert-ok", What: typeStr(x.AssertedType), Args: []string{a.Desc}, In: fname(fr.fn)})
+			}
 		}
 		r := defaultFor(x.AssertedType, d)
 		if a.K == "slice" || a.Len != nil {
